@@ -278,4 +278,5 @@ SUBS = [
     Sub("vtec_arbitrary", o_vtec, strategy=s_vtec, examples=(100, 3000), rule="every case", sample=_short),
     Sub("static_parse", o_static, strategy=s_static, examples=(250, 6000), rule="every case", need={"buflen<=6": 1}, sample=_short),
     Sub("stream_iteration", o_iter, strategy=s_iter, examples=(200, 5000), rule="error-path item or read script present", need={"qoe0": 1, "qoe1": 1, "qoe2": 1}, sample=_short),
+    __import__("pv.fuzz.campaign", fromlist=["make"]).make("C04", ("C04",)),
 ]
